@@ -74,10 +74,11 @@ package ipam
 //@ ghost c21Stale bool
 //@ ghost c21OK set[int]
 //@ func (*allocationBlock).release
-//@   property C21
+//@   property C21, C19
 //@   option safety off
-//@   option stable []int
-//@   requires b != nil && !c21Touched && !c21Stale && c21OK == emptyset(int)
+//@   option absindex
+//@   option stable []int, []*int, (*allocationBlock).AllocationBlock, (*model.AllocationBlock).Allocations, (*model.AllocationBlock).Unallocated
+//@   requires blkWF(b) && !c21Touched && !c21Stale && c21OK == emptyset(int)
 //@   ghost at call Debugf#6: c21OK = store(c21OK, ordinal, attrIdx != nil && b.AllocationBlock.Attributes[*attrIdx].ReleasedAt == nil)
 //@   ghost at call GetSequenceNumberForOrdinal#1: c21Stale = c21Stale || (opts.SequenceNumber != nil && res != *opts.SequenceNumber)
 //@   ghost at call addCooldownAttribute: c21Touched = true
@@ -85,9 +86,25 @@ package ipam
 //@   ghost at call garbageCollect: c21Touched = true
 //@   ensures res2 != nil ==> !c21Touched
 //@   ensures c21Stale ==> res2 != nil
+//@   ensures b.AllocationBlock != nil
+//@   ensures forall i int :: 0 <= i && i < len(blkU(b)) ==> 0 <= blkU(b)[i] && blkU(b)[i] < len(blkA(b))
+//@   ensures forall i int :: 0 <= i && i < len(blkU(b)) ==> blkA(b)[blkU(b)[i]] == nil
+//@   ensures forall i int, j int :: 0 <= i && i < j && j < len(blkU(b)) ==> blkU(b)[i] != blkU(b)[j]
 //@   loop 1 invariant !c21Stale && !c21Touched && (forall j int :: 0 <= j && j < len(ordinals) ==> c21OK[ordinals[j]])
-//@   loop 3 invariant -1 <= rangeindex && rangeindex < len(ordinals) && (forall j int :: 0 <= j && j < len(ordinals) ==> c21OK[ordinals[j]])
+//@   loop 1 invariant blkWFq(b) && !fresh(blkU(b)) && !fresh(blkA(b))
+//@   loop 1 invariant (ordinals == nil || fresh(ordinals)) && (forall j int :: 0 <= j && j < len(ordinals) ==> blkA(b)[ordinals[j]] != nil)
 //@   loop 2 invariant !c21Stale && !c21Touched
+//@   loop 2 invariant blkWFq(b)
+//@   loop 3 invariant -1 <= rangeindex && rangeindex < len(ordinals) && (forall j int :: 0 <= j && j < len(ordinals) ==> c21OK[ordinals[j]])
+//@   loop 3 invariant blkWFq(b)
+//@   loop 3 invariant fresh(ordinals) && (forall j int :: 0 <= j && j < len(ordinals) ==> blkA(b)[ordinals[j]] != nil) && releaseAttrIdx != nil
+//@ -- a new attribute entry is appended; nothing else of the block changes, and the index cell returned is new
+//@ func (*allocationBlock).addCooldownAttribute
+//@   property C19
+//@   option safety off
+//@   requires b != nil && b.AllocationBlock != nil
+//@   ensures res != nil && fresh(res)
+//@   assigns b.AllocationBlock.Attributes, b.AllocationBlock.Attributes[*]
 
 //@ -- ---------------------------------------------------------------- C19: one owner per address (block level)
 //@ -- Representation invariant of a block: the free list names only in-range, currently free slots, each once.
